@@ -15,6 +15,8 @@ import (
 
 // Exec executes one verification unit.
 type Exec struct {
+	autoDepth   int
+	autoParents []*frame
 	E           *Engine
 	C           *Ctx
 	baseSyms    map[string]Term
@@ -89,21 +91,22 @@ func shortFn(fn *ssa.Function) string {
 
 // frame is one (possibly inlined) function activation.
 type frame struct {
-	fn       *ssa.Function
-	vals     map[ssa.Value]Value
-	in       map[*ssa.BasicBlock][]edge
-	returns  []edge
-	retVals  [][]Value
-	bindings []Value
-	params   []Value
-	contract *Contract
-	loops    map[*ssa.BasicBlock]*loopInfo
-	inline   bool
-	entrySt  *State // state at function entry (old() for callee-level contracts)
-	variants map[*ssa.BasicBlock][]Term
-	curBlock *ssa.BasicBlock
-	autoInv  map[*ssa.BasicBlock][]*ssa.Alloc
-	headSt   map[*ssa.BasicBlock]*State // per loop: the state at its head (this iteration), for step clauses
+	autoParent *frame // enclosing frame when this function is executed in place as a new function
+	fn         *ssa.Function
+	vals       map[ssa.Value]Value
+	in         map[*ssa.BasicBlock][]edge
+	returns    []edge
+	retVals    [][]Value
+	bindings   []Value
+	params     []Value
+	contract   *Contract
+	loops      map[*ssa.BasicBlock]*loopInfo
+	inline     bool
+	entrySt    *State // state at function entry (old() for callee-level contracts)
+	variants   map[*ssa.BasicBlock][]Term
+	curBlock   *ssa.BasicBlock
+	autoInv    map[*ssa.BasicBlock][]*ssa.Alloc
+	headSt     map[*ssa.BasicBlock]*State // per loop: the state at its head (this iteration), for step clauses
 }
 
 type loopInfo struct {
@@ -220,6 +223,9 @@ func (x *Exec) run(fn *ssa.Function, st *State, args []Value, bindings []Value, 
 	}
 	fr := &frame{fn: fn, vals: map[ssa.Value]Value{}, in: map[*ssa.BasicBlock][]edge{}, bindings: bindings,
 		params: args, contract: contract, loops: findLoops(fn), inline: inline, variants: map[*ssa.BasicBlock][]Term{}, autoInv: map[*ssa.BasicBlock][]*ssa.Alloc{}}
+	if contract == nil && len(x.autoParents) > 0 && x.E.autoInlineCache[fn] {
+		fr.autoParent = x.autoParents[len(x.autoParents)-1]
+	}
 	for i, p := range fn.Params {
 		fr.vals[p] = args[i]
 	}
